@@ -13,25 +13,31 @@ import tempfile
 
 import bindgen
 import fw
+import textgen
 from props import c01
 
-LEAN_PROPS = ["NmlVerif.Props.C04"]
+LEAN_PROPS = ["NmlVerif.Props.C04", "NmlVerif.Props.C04Text"]
 LEVEL = "proof"
 RULE = ("for every binding class: random objects exported by the real writer, then rewritten by presentation-preserving "
-        "transformations of the XML text (attribute permutation, whitespace and comments between children, explicitly "
-        "written defaults, numeric respellings +x / trailing zeros / exponent form / leading zeros, an undeclared "
-        "attribute is NOT a variant and is not used); 3 load/write cycles compared byte-wise; export called twice; "
-        "in-memory document dumped before/after export. non-trivial = the variant text differs from the original; "
-        "distinct = distinct (class, variant kind, text)")
-TRUST = c01.TRUST + ["numeric respellings are decided by CPython float()/int(): trusted, sampled here"]
+        "transformations: (tree level, via lxml) attribute permutation, whitespace and comments between children, explicitly "
+        "written defaults, numeric respellings +x / trailing zeros / exponent form / leading zeros; (text level, textgen.mangle) "
+        "entity and character-reference respellings, delimiter swap, white space inside tags, comments / PIs between children and "
+        "inside text, CDATA wrapping, <a/> vs <a></a>, XML declaration, CRLF / CR line ends; all loaded through the library's own "
+        "parser configuration; 3 load/write cycles compared byte-wise; source texts NOT produced by the writer (hand-written corpus "
+        "and the model's serialisation of the object) loaded, written, loaded; a sequence of loads in one process with includes and "
+        "default arguments incl. a rewritten file; a 400-segment morphology written three times; the same path written twice; "
+        "trees with a past. non-trivial = the variant text differs from the original; distinct = distinct (class, variant kind, text)")
+TRUST = c01.TRUST + ["floating-point respellings are decided by CPython float(): trusted, sampled here; integer / boolean spellings are modelled exactly"]
 ASSUMPTIONS = c01.ASSUMPTIONS + [
     "fixed point and byte stability are stated for documents without xs:any content; annotation children are a known finding (C04:any-content-tail-growth)",
+    "TAB / CR inside attribute values of a LOADED document do not survive a write (known finding C04:tab-cr-in-attribute)",
+    "process state across loads (caches, shared defaults) is checked by the load-history oracle only; its model is C07's",
 ]
 
 
 def regenerate(ctx):
     ctx.ir = bindgen.IR()
-    return list(ctx.ir.gaps)
+    return list(ctx.ir.gaps) + c01.py2lean_quote.regenerate(fw.REPO, fw.LEAN)
 
 
 def respell(rng, prim, v):
@@ -143,9 +149,7 @@ def shallow(o):
 
 
 def load_text(mod, cls, text):
-    from lxml import etree
-    parser = etree.ETCompatXMLParser() if hasattr(etree, "ETCompatXMLParser") else etree.XMLParser(remove_comments=True)
-    root = etree.fromstring(text.encode("utf-8"), parser)
+    root = textgen.lib_parse(mod, text)              # the library's own parser configuration (parsexmlstring_)
     return getattr(mod, cls).factory().build(root), root
 
 
@@ -165,11 +169,226 @@ def cycles(mod, cls, text, tag, n=3):
     return texts
 
 
+XMLNS = [[" ", "xmlns", '"', "http://www.neuroml.org/schema/neuroml2"]]
+
+SOURCE_CORPUS = [
+    # (class, source text not in the writer's own style)
+    ("NeuroMLDocument", '<neuroml xmlns="http://www.neuroml.org/schema/neuroml2" id="d">\n'
+                        '  <property tag="description" value="first line&#10;second line &amp; more"/>\n</neuroml>\n'),
+    ("NeuroMLDocument", "<?xml version='1.0' encoding='UTF-8'?>\r\n<neuroml xmlns='http://www.neuroml.org/schema/neuroml2' id = 'd' >\r\n"
+                        "<!-- a comment --><notes>a &lt;b&gt; <![CDATA[& raw <stuff>]]> c&#10;d&#9;e</notes>\r\n"
+                        "<property value='it&apos;s &quot;x&quot;&#10;' tag=\"&#x41;&#66;\"/><property tag='t' value=''></property>\r\n</neuroml>"),
+    ("Segment", '<segment xmlns="http://www.neuroml.org/schema/neuroml2" name="a&#10;&#10;b&#9;c&#13;d" id="1"/>'),   # KNOWN FINDING
+    ("Segment", '<segment xmlns="http://www.neuroml.org/schema/neuroml2" name="a&#10;&#10;b &#x20AC;" id="007"><parent segment="+5" '
+                'fractionAlong="1e0"/><distal z="0" y="-0.0" x="1.50" diameter="&#49;"/></segment>'),
+    ("Property", '<property xmlns="http://www.neuroml.org/schema/neuroml2" tag="&lt;&#60;&#x3c;&amp;lt;" value="&#38;#10;"/>'),
+]
+
+
+def source_corpus(ctx, mod):
+    for cls, text in SOURCE_CORPUS:
+        ctx.seen({"source-corpus": text})
+        ctx.count("source-corpus")
+        source_cycle(ctx, mod, cls, text, {"cls": cls, "source": text})
+
+
+def tab_cr_normalised(d):
+    import ast as _ast
+    _, a, b = d
+    if isinstance(a, list) and isinstance(b, list) and a[:2] == ["v", "str"] and b[:2] == ["v", "str"]:
+        sa, sb = _ast.literal_eval(a[2]), _ast.literal_eval(b[2])
+        return ("\t" in sa or "\r" in sa) and sa.replace("\r\n", " ").replace("\t", " ").replace("\r", " ") == sb
+    return False
+
+
+def source_cycle(ctx, mod, cls, text, case, expect=None):
+    """load a source text, write what was loaded, load that, write again"""
+    tag = re.search(r"<([A-Za-z_][\w.\-]*)", re.sub(r"<\?.*?\?>|<!--.*?-->", "", text, flags=re.S)).group(1)
+    try:
+        d1, _ = load_text(mod, cls, text)
+        m1 = bindgen.meta_dump(d1)
+    except Exception as e:
+        ctx.fail("C04:source-load-raised:" + cls, repr(e), case)
+        return
+    if expect is not None:
+        d = bindgen.meta_diff(expect, m1, cls)
+        if d:
+            ctx.fail("C04:source-loads-differently:" + cls, "a text the model wrote for a document loads as a different document: "
+                     + c01.dstr(d), case)
+            return
+    try:
+        t1 = bindgen.export_text(d1, tag)
+        d2, _ = load_text(mod, cls, t1)
+        t2 = bindgen.export_text(d2, tag)
+    except Exception as e:
+        ctx.fail("C04:cycle-raised:" + cls, repr(e), case)
+        return
+    ctx.count("source-cycles")
+    d = bindgen.meta_diff(m1, bindgen.meta_dump(d2), cls)
+    if d and tab_cr_normalised(d):
+        ctx.fail("C04:tab-cr-in-attribute", "a TAB / CR that the loaded document holds in an attribute value is written literally and "
+                 "comes back as a space: " + c01.dstr(d), dict(case, written=t1[:600]))
+    elif d:
+        ctx.fail("C04:reload-differs:" + cls, "writing a loaded document and loading the result gives a different document: "
+                 + c01.dstr(d), dict(case, written=t1[:600]))
+    elif t1 != t2:
+        ctx.fail("C04:no-fixed-point:" + cls, "bytes change between load/write cycles", dict(case, texts=[t1[:400], t2[:400]]))
+
+
+def model_source_cycle(ctx, ir, mod, mbatch, msources, cls, tag, desc, expect):
+    def cont(r, cls=cls, tag=tag, desc=desc, expect=expect):
+        if "ok" not in r:
+            return
+        mt = bindgen.dec_tree(ir, r["ok"])
+        if mt["tag"].startswith("?"):
+            mt["tag"] = tag
+        msources.append((cls, tag, desc, expect, mt))
+    mbatch.add({"op": "export", "tag": ir.ix.get(tag, 10 ** 6), "fuel": 12, "obj": bindgen.enc_obj(ir, desc)}, cont)
+
+
+NSQ = 'xmlns="http://www.neuroml.org/schema/neuroml2"'
+VARIANT_CORPUS = [
+    # (class, text, presentation variant of it): both must load to the same document
+    ("NeuroMLDocument", '<neuroml %s id="d"><notes>  abc</notes></neuroml>' % NSQ, '<neuroml %s id="d"><notes>  <!--c-->abc</notes></neuroml>' % NSQ),
+    ("NeuroMLDocument", '<neuroml %s id="d"><notes>abc  </notes></neuroml>' % NSQ, '<neuroml %s id="d"><notes>abc<!--c-->  </notes></neuroml>' % NSQ),
+    ("NeuroMLDocument", '<neuroml %s id="d"><notes>   </notes></neuroml>' % NSQ, '<neuroml %s id="d" ><notes><![CDATA[   ]]></notes></neuroml>' % NSQ),
+    ("NeuroMLDocument", '<neuroml %s id="d"><notes>a\nb</notes></neuroml>' % NSQ, '<neuroml %s id="d"><notes>a\r\nb</notes>\r\n</neuroml>' % NSQ),
+    ("NeuroMLDocument", '<neuroml %s id="d"><notes></notes></neuroml>' % NSQ, '<neuroml %s id="d"><notes/></neuroml>' % NSQ),
+    ("Segment", '<segment %s id="7" name="a b"><distal x="1" y="2" z="3" diameter="4"/></segment>' % NSQ,
+     "<segment %s\n name = 'a&#32;b' id='+007' >\n<!-- c --><distal diameter='4.0' z='3e0' y='+2' x='1.'></distal></segment >" % NSQ),
+]
+
+
+def variant_corpus(ctx, mod):
+    for cls, a, b in VARIANT_CORPUS:
+        ctx.seen({"variant-corpus": b})
+        ctx.count("variant-corpus")
+        case = {"cls": cls, "original": a, "variant": b}
+        try:
+            da, _ = load_text(mod, cls, a)
+            db, _ = load_text(mod, cls, b)
+        except Exception as e:
+            ctx.fail("C04:variant-load-raised:corpus:" + cls, repr(e), case)
+            continue
+        d = bindgen.meta_diff(bindgen.meta_dump(da), bindgen.meta_dump(db), cls)
+        if d:
+            ctx.fail("C04:variant-differs:corpus:" + cls, "variant loads differently: " + c01.dstr(d), case)
+
+
+def big_write_twice(ctx, mod):
+    """"writing twice gives the same bytes" on a document with more than a thousand distinct double values and both
+    zeros far apart (anything cached by value inside the writer shows on the SECOND write)"""
+    import io
+    n = 400
+    segs = []
+    for i in range(n):
+        z = 0.0 if i == 0 else (-0.0 if i == n - 1 else 0.125 * i + 1000.0)
+        segs.append(mod.Segment(id=i, distal=mod.Point3DWithDiam(x=z, y=0.25 * i + 5000.0, z=-(0.5 * i + 9000.0), diameter=1.0 + i / 1024.0)))
+    m = mod.Morphology(id="m", segments=segs)
+    case = {"big": "Morphology with %d segments, %d distinct doubles, x=0.0 first and x=-0.0 last" % (n, 4 * n - 1)}
+    ctx.seen(case)
+    ctx.count("big-write-twice")
+    outs = []
+    for _ in range(3):
+        f = io.StringIO()
+        m.export(f, 0, name_="morphology", namespacedef_=NSQ)
+        outs.append(f.getvalue())
+    if not (outs[0] == outs[1] == outs[2]):
+        k = next(i for i in range(min(len(outs[0]), len(outs[1]))) if outs[0][i] != outs[1][i]) if outs[0] != outs[1] else None
+        ctx.fail("C04:write-twice-differs:big-morphology", "successive writes of one unchanged document differ" +
+                 (": first write %r, second write %r" % (outs[0][max(0, k - 40):k + 20], outs[1][max(0, k - 40):k + 20]) if k is not None else ""), case)
+        return
+    try:
+        back, _ = load_text(mod, "Morphology", outs[0])
+        d = bindgen.meta_diff(bindgen.meta_dump(m), bindgen.meta_dump(back), "Morphology")
+        if d:
+            ctx.fail("C04:reload-differs:big-morphology", "the written document loads differently: " + c01.dstr(d), case)
+    except Exception as e:
+        ctx.fail("C04:load-raised:big-morphology", repr(e), case)
+
+
+INC_MAIN = ('<neuroml xmlns="http://www.neuroml.org/schema/neuroml2" id="main%d">\n    <include href="%s"/>\n'
+            '    <izhikevichCell id="m%d" v0="-70mV" thresh="30mV" a="0.02" b="0.2" c="-65" d="6"/>\n</neuroml>\n')
+INC_CELLS = ('<neuroml xmlns="http://www.neuroml.org/schema/neuroml2" id="cells">\n'
+             '    <izhikevichCell id="c0" v0="-70mV" thresh="30mV" a="0.02" b="0.2" c="-65" d="6"/>\n'
+             '    <iafCell id="i0" leakReversal="-50mV" thresh="-55mV" reset="-70mV" C="0.2nF" leakConductance="0.01uS"/>\n</neuroml>\n')
+
+
+def load_history(ctx):
+    """"loading depends only on XML content": a SEQUENCE of loads in one process (default arguments, includes resolved):
+    a file, a presentation variant of it including the same file, the first file again -- every load must give what a
+    load of that file gives on its own (first in the sequence)"""
+    import neuroml.loaders as L
+    tmp = tempfile.mkdtemp(prefix="verif_c04h_")
+    try:
+        inc = os.path.join(tmp, "cells.nml")
+        open(inc, "w").write(INC_CELLS)
+        a, b = os.path.join(tmp, "a.nml"), os.path.join(tmp, "b.nml")
+        ta = INC_MAIN % (0, "cells.nml", 0)
+        open(a, "w").write(ta)
+        mg = textgen.mangle(ctx.rng, ta, ["attr-order", "attr-ws", "comments", "quotes", "empty-pair"])
+        open(b, "w").write(mg[1] if mg else ta)
+        seq = [("file", a), ("file", b), ("file", a), ("loader", a), ("file", b), ("noinc", a), ("file", a)]
+        dumps = []
+        for kind, p in seq:
+            try:
+                if kind == "loader":
+                    d = L.NeuroMLLoader.load(p)
+                elif kind == "noinc":
+                    d = L.read_neuroml2_file(p)
+                else:
+                    d = L.read_neuroml2_file(p, include_includes=True)
+                dumps.append(bindgen.meta_dump(d))
+            except BaseException as e:
+                dumps.append(["v", "raised", repr(e)])
+        # the same PATH with new content: the load must show the new content (nothing remembered per file name)
+        tc = INC_MAIN % (1, "cells.nml", 1)
+        open(a, "w").write(tc)
+        for kind in ("file", "loader"):
+            try:
+                d = L.NeuroMLLoader.load(a) if kind == "loader" else L.read_neuroml2_file(a, include_includes=True)
+                got = (d.id, [c.id for c in d.izhikevich_cells])
+            except BaseException as e:
+                got = repr(e)
+            want = ("main1", ["m1"] if kind == "loader" else ["m1", "c0"])
+            ctx.count("load-history-steps")
+            if got != want and not (isinstance(got, tuple) and got[0] == "main1" and sorted(got[1]) == sorted(want[1])):
+                ctx.fail("C04:load-depends-on-history", "a file that was rewritten between two loads of the same path is loaded as "
+                         "%r, its content says %r" % (got, want),
+                         {"rewritten": True, "kind": kind, "first": ta, "second": tc, "cells.nml": INC_CELLS})
+        ctx.seen({"history": [k for k, _ in seq]})
+        ctx.count("load-history-steps", len(seq))
+        ref = {"file": dumps[0], "loader": dumps[3], "noinc": dumps[5]}
+        for i, ((kind, p), d) in enumerate(zip(seq, dumps)):
+            r = ref[kind]
+            if isinstance(d, list) and d[:2] == ["v", "raised"]:
+                ctx.fail("C04:load-history-raised", "step %d (%s) raised %s" % (i, kind, d[2]), {"history": [k for k, _ in seq], "step": i})
+                break
+            diff = bindgen.meta_diff(r, d, "NeuroMLDocument") or bindgen.meta_diff(d, r, "NeuroMLDocument")
+            if diff:
+                ctx.fail("C04:load-depends-on-history", "load number %d of the session (%s of %s) gives a different document than the "
+                         "same load gave first: %s" % (i + 1, kind, os.path.basename(p), c01.dstr(diff)),
+                         {"history": [[k, os.path.basename(q)] for k, q in seq], "step": i, "files": {"a.nml": ta, "b.nml": mg[1] if mg else ta,
+                                                                                                      "cells.nml": INC_CELLS}})
+                break
+    finally:
+        shutil.rmtree(tmp, ignore_errors=True)
+
+
 def run(ctx):
     ir = getattr(ctx, "ir", None) or bindgen.IR()
     import neuroml.nml.nml as mod
-    gen = bindgen.Gen(ir, ctx.rng, special=True, max_depth=ctx.n(2, 3), max_list=ctx.n(2, 3))
+    gen = textgen.TGen(ir, ctx.rng, special=True, max_depth=ctx.n(2, 3), max_list=ctx.n(2, 3))
     lines, pending = [], []
+    tbatch = textgen.Batch("C04")
+    mbatch = textgen.Batch("C01")
+    msources = []
+    source_corpus(ctx, mod)
+    variant_corpus(ctx, mod)
+    load_history(ctx)
+    big_write_twice(ctx, mod)
+    # documents that were LOADED and then re-arranged (a loaded child moved to another slot): write, load
+    c01.past_trees(ctx, ir, gen, ctx.n(20, 200), pid="C04")
     # corpus: the known finding (xs:any content grows on every cycle)
     try:
         ts = cycles(mod, "NeuroMLDocument", ANY_DOC, "neuroml", 4)
@@ -229,9 +448,21 @@ def run(ctx):
             except Exception as e:
                 ctx.notes.append("variant generator failed: %r" % (e,))
                 vs = []
+            for _ in range(ctx.n(2, 4)):
+                try:
+                    mg = textgen.mangle(ctx.rng, t_a)
+                except Exception as e:
+                    ctx.notes.append("mangle failed: %r" % (e,))
+                    mg = None
+                if mg is not None and mg[1] != t_a:
+                    vs.append(("text:" + "+".join(sorted(mg[0])), mg[1]))
+                    for k in mg[0]:
+                        ctx.count("text-variant:" + k)
             for kind, vt in vs:
+                if kind.startswith("text:"):
+                    c01.parse_stream(ctx, tbatch, {"cls": cls, "kind": kind}, vt)
                 ctx.seen({"cls": cls, "kind": kind, "text": vt}, nontrivial=(vt != t_a))
-                ctx.count("variant:" + kind)
+                ctx.count("variant:" + (kind if not kind.startswith("text:") else "text-level"))
                 try:
                     ov, rootv = load_text(mod, cls, vt)
                 except Exception as e:
@@ -252,22 +483,47 @@ def run(ctx):
                         continue
                     lines.append(json.dumps({"op": "build", "cls": ir.ix[cls], "fuel": 12, "node": bindgen.enc_tree(ir, tree)}))
                     pending.append(("build", dict(case, kind=kind), dv))
+            # a source text NOT produced by the library's writer (the model's export + serialiser wrote it): load it,
+            # write what was loaded, load that: the two loaded documents must be identical and the bytes stable
+            if ctx.rng.random() < ctx.n(0.5, 1.0):
+                model_source_cycle(ctx, ir, mod, mbatch, msources, cls, tag, desc, before)
         if len(lines) > 3000:
             c01.flush(ctx, ir, lines, pending)
             lines, pending = [], []
+            tbatch.flush(ctx)
     c01.flush(ctx, ir, lines, pending)
+    tbatch.flush(ctx)
+    mbatch.flush(ctx)
+    sb = textgen.Batch("C04")
+    for (cls_, tag_, desc_, expect_, mt_) in msources:
+        def cont2(r2, cls_=cls_, desc_=desc_, expect_=expect_):
+            text = r2.get("r")
+            if isinstance(text, str):
+                source_cycle(ctx, mod, cls_, text, {"cls": cls_, "desc": desc_, "source": text[:8000]}, expect=expect_)
+        sb.add({"op": "serialise", "fuel": 40, "tree": textgen.tnode_of_tree(mt_), "extra": XMLNS}, cont2)
+    sb.flush(ctx)
     # whole files through the loader/writer pair
     import neuroml.loaders as L
     import neuroml.writers as W
     tmp = tempfile.mkdtemp(prefix="verif_c04_")
     try:
-        for i in range(ctx.n(8, 80)):
+        ndoc = 0
+        for i in range(20 * ctx.n(8, 80)):
+            if ndoc >= ctx.n(8, 80):
+                break
             o, desc = gen.obj("NeuroMLDocument")
             if c01.has_cdata_text(desc):
                 continue
+            ndoc += 1
             p1, p2, p3 = (os.path.join(tmp, "d%d_%d.nml" % (i, k)) for k in range(3))
             try:
                 W.NeuroMLWriter.write(o, p1)
+                W.NeuroMLWriter.write(o, p3)
+                W.NeuroMLWriter.write(o, p3)           # the same path twice: the file holds ONE document
+                if open(p1, "rb").read() != open(p3, "rb").read():
+                    ctx.fail("C04:write-twice-differs:same-path", "writing a document twice to the same path leaves other bytes "
+                             "than writing it once (%d vs %d bytes)" % (os.path.getsize(p3), os.path.getsize(p1)),
+                             {"cls": "NeuroMLDocument", "desc": desc, "same_path": True})
                 W.NeuroMLWriter.write(L.NeuroMLLoader.load(p1), p2)
                 W.NeuroMLWriter.write(L.NeuroMLLoader.load(p2), p3)
                 b1, b2, b3 = (open(p, "rb").read() for p in (p1, p2, p3))
@@ -291,6 +547,68 @@ def replay(ctx, payload):
         b, _ = load_text(mod, case["cls"], case["variant"])
         d = bindgen.meta_diff(bindgen.meta_dump(a), bindgen.meta_dump(b), case["cls"])
         return {"fails": bool(d), "difference": c01.dstr(d) if d else None}
+    if case.get("kind") == "past":
+        return c01.replay(ctx, payload)
+    if case.get("rewritten"):
+        import neuroml.loaders as L
+        tmp = tempfile.mkdtemp(prefix="verif_c04r_")
+        try:
+            open(os.path.join(tmp, "cells.nml"), "w").write(case["cells.nml"])
+            a = os.path.join(tmp, "a.nml")
+            ids = []
+            for t in (case["first"], case["second"]):
+                open(a, "w").write(t)
+                d = L.NeuroMLLoader.load(a) if case["kind"] == "loader" else L.read_neuroml2_file(a, include_includes=True)
+                ids.append(d.id)
+            return {"fails": ids != ["main0", "main1"], "document ids loaded": ids}
+        finally:
+            shutil.rmtree(tmp, ignore_errors=True)
+    if case.get("same_path"):
+        import neuroml.writers as W
+        ir = bindgen.IR()
+        o = c01.build_from_desc(ir, mod, case["desc"])
+        tmp = tempfile.mkdtemp(prefix="verif_c04r_")
+        try:
+            p1, p3 = os.path.join(tmp, "one.nml"), os.path.join(tmp, "two.nml")
+            W.NeuroMLWriter.write(o, p1)
+            W.NeuroMLWriter.write(o, p3)
+            W.NeuroMLWriter.write(o, p3)
+            return {"fails": open(p1, "rb").read() != open(p3, "rb").read(), "sizes": [os.path.getsize(p1), os.path.getsize(p3)]}
+        finally:
+            shutil.rmtree(tmp, ignore_errors=True)
+    if "big" in case:
+        ctx2 = fw.Ctx("C04", "quick", 0)
+        big_write_twice(ctx2, mod)
+        return {"fails": bool(ctx2.failures), "what": [f["what"][:400] for f in ctx2.failures]}
+    if "history" in case and "files" in case:
+        import neuroml.loaders as L
+        tmp = tempfile.mkdtemp(prefix="verif_c04r_")
+        try:
+            for n, t in case["files"].items():
+                open(os.path.join(tmp, n), "w").write(t)
+            dumps = []
+            for kind, n in case["history"]:
+                p = os.path.join(tmp, n)
+                d = (L.NeuroMLLoader.load(p) if kind == "loader" else L.read_neuroml2_file(p) if kind == "noinc"
+                     else L.read_neuroml2_file(p, include_includes=True))
+                dumps.append(bindgen.meta_dump(d))
+            first = {}
+            for i, ((kind, n), d) in enumerate(zip(case["history"], dumps)):
+                r = first.setdefault(kind, d)
+                diff = bindgen.meta_diff(r, d, "NeuroMLDocument") or bindgen.meta_diff(d, r, "NeuroMLDocument")
+                if diff:
+                    return {"fails": True, "step": i, "difference": c01.dstr(diff), "history": case["history"]}
+            return {"fails": False}
+        finally:
+            shutil.rmtree(tmp, ignore_errors=True)
+    if "source" in case and "cls" in case:
+        cls, text = case["cls"], case["source"]
+        tag = re.search(r"<([A-Za-z_][\w.\-]*)", re.sub(r"<\?.*?\?>|<!--.*?-->", "", text, flags=re.S)).group(1)
+        d1, _ = load_text(mod, cls, text)
+        t1 = bindgen.export_text(d1, tag)
+        d2, _ = load_text(mod, cls, t1)
+        d = bindgen.meta_diff(bindgen.meta_dump(d1), bindgen.meta_dump(d2), cls)
+        return {"fails": bool(d), "difference": c01.dstr(d) if d else None, "source": text, "written": t1[:800]}
     if "text" in case:
         ts = cycles(mod, "NeuroMLDocument", case["text"], "neuroml", 4)
         return {"fails": not (ts[0] == ts[1] == ts[2] == ts[3]), "lengths": [len(t) for t in ts]}
